@@ -212,6 +212,10 @@ func (c *schedClient) orders(w *schedWorld) (get, retire []int) {
 func runSchedCase(g *gen, id int, stats map[string]int, fixed *schedFixed) (string, string) {
 	bf := []int{16, 4096}[g.r.Intn(2)] // no key of this level is a multiple of the branch factor: one node per tree
 	w := &schedWorld{st: newFakeS3(), names: map[string]int{}}
+	// a listing is ONE request at this level (the model's assumption: fewer versions under current/
+	// than one listing page holds, 1000 in S3); a listing that takes several pages is not atomic
+	// and is exercised only in the sequential histories
+	w.st.pageSize = 0
 	var in tw
 	in.s("plain")
 	in.i(bf)
